@@ -148,7 +148,9 @@ TRet ==
            f == c.f
            op == c.op
            st == Line.st
-           live == RefsDefinite(f, links, descr, readers, upl)
+           \* "gone" is certainly wrong while a directory entry or a descriptor
+           \* exists (a file held only by a frozen reader may be refused)
+           live == links[f] > 0 \/ DescrOpen(descr[f]) > 0
            lk2 == IF op = "create" THEN [links EXCEPT ![f] = 1]
                   ELSE IF op = "link" /\ st = "OK" THEN [links EXCEPT ![f] = @ + 1]
                   ELSE IF op = "unlink" THEN [links EXCEPT ![f] = @ - 1]
